@@ -33,6 +33,16 @@ def gen_ops(tier, rng):
             for s in range(d + p):
                 for off in range(size):
                     ver(f, o, d, p, size, s, off, rng.randrange(1, 256), "every-offset")
+    # one parity shard with BOTH a custom row and WithFastOneParityMatrix (the custom row decides): Verify must use the encoder's
+    # own parity, not the xor of the data - valid sets and every single-byte change
+    for k in range(3):
+        f = rng.choice(["custom:%d+xor", "xor+custom:%d"]) % rng.randrange(1, 999)
+        for (d, size) in [(4, 31), (2, 64), (5, 100)]:
+            ver.seed = rng.randrange(1, 1 << 30)
+            ver(f, "-", d, 1, size, -1, 0, 0, "custom-fast-one-parity-noflip")
+            for s in range(d + 1):
+                for off in range(0, size, 7):
+                    ver(f, "-", d, 1, size, s, off, rng.randrange(1, 256), "custom-fast-one-parity")
     # all 255 deltas at 4 offsets
     for dl in range(1, 256):
         for off in [0, 1, 63, 99]:
